@@ -51,7 +51,7 @@ var c10Check = register("C10", "c10.equiv", func(c *equivCheckCase) error {
 	return nil
 })
 
-const c10Rule = "C10: (a) word sweep \u2014 all 10 x 2048 list words inside valid sentences at every word count, respelled in NFC/NFD/NFKC/NFKD/full-width with U+0020 and U+3000 separators; (b) rapid: valid and single-defect sentences, and arbitrary Unicode strings, respelled by whole-string forms, per-token forms, every NFKD-space separator, and inverse-NFKD substitution, under supported and unsupported languages. Oracle (metamorphic): equal verdicts; valid sentences accepted in every spelling. Non-trivial: spellings differ bytewise AND (the verdict is accept OR the text is a single-defect sentence); distinct by (language, a, b)"
+const c10Rule = "C10: (a) word sweep \u2014 all 10 x 2048 list words inside valid sentences at every word count, respelled in NFC/NFD/NFKC/NFKD/full-width with U+0020 and U+3000 separators; plus, for every list word, up to three compatibility twins (a rune or run of runes replaced by a single rune that decomposes to it: CJK compatibility ideographs, Kangxi radicals, precomposed kana/Hangul/letters), plus sentences of extreme byte length; (b) rapid: valid and single-defect sentences, and arbitrary Unicode strings, respelled by whole-string forms, per-token forms, every NFKD-space separator, and inverse-NFKD substitution, under supported and unsupported languages. Oracle (metamorphic): equal verdicts; valid sentences accepted in every spelling. Non-trivial: spellings differ bytewise AND (the verdict is accept OR the text is a single-defect sentence); distinct by (language, a, b)"
 
 func c10Record(c *equivCheckCase, interesting bool) {
 	cov.Eval(1)
@@ -108,6 +108,63 @@ func TestC10_WordSweep(t *testing.T) {
 						}
 						judge(t, "c10.equiv", c10Check, c)
 					}
+				}
+			}
+		}
+	}
+	// compatibility twins: every list word in which some rune (or run of runes) has a single-rune
+	// spelling that decomposes to it — CJK compatibility ideographs and Kangxi radicals for the
+	// Chinese lists, precomposed kana / Hangul syllables / accented letters elsewhere
+	for _, l := range allLangs() {
+		if !mine(int(l) + 3) {
+			continue
+		}
+		golden := ref.Golden(l)
+		for i, w := range golden {
+			rs := []rune(w)
+			variants := 0
+			for pos := 0; pos < len(rs) && variants < 3; pos++ {
+				for span := min(3, len(rs)-pos); span >= 1 && variants < 3; span-- {
+					cands := gen.InverseNFKD(string(rs[pos : pos+span]))
+					for k := 0; k < len(cands) && k < 2 && variants < 3; k++ {
+						twin := string(rs[:pos]) + string(cands[(k+i)%len(cands)]) + string(rs[pos+span:])
+						if ref.NFKD(twin) != w {
+							continue // interaction with neighbouring marks: not an equivalent spelling
+						}
+						n := ref.Counts[(i+variants)%5]
+						prefix := make([]int, n-1)
+						for p := range prefix {
+							prefix[p] = (i*13 + p*101) % 2048
+						}
+						at := (i + variants) % (n - 1)
+						prefix[at] = i
+						sol := ref.SolveLast(prefix)
+						words := ref.Words(l, append(prefix, sol[i%len(sol)]))
+						canonical := strings.Join(words, " ")
+						words[at] = twin
+						c := &equivCheckCase{Lang: int64(implLang[l]), A: text(canonical), B: text(strings.Join(words, " ")), Method: "compat-twin"}
+						c10Record(c, true)
+						cov.Class("twin lang=" + l.Name())
+						variants++
+						judge(t, "c10.equiv", c10Check, c)
+					}
+				}
+			}
+		}
+	}
+	// sentences of extreme byte length (longest / shortest words), which full-width and NFD spellings stretch further
+	for _, l := range allLangs() {
+		if !mine(int(l)) {
+			continue
+		}
+		for _, n := range ref.Counts {
+			for _, longest := range []bool{true, false} {
+				words := ref.Words(l, gen.ExtremeIndices(l, n, longest, n))
+				canonical := strings.Join(words, " ")
+				for _, v := range []string{gen.FullWidth(canonical), gen.Forms["NFC"].String(strings.Join(words, "\u3000")), strings.Join(words, "\u3000"), gen.Forms["NFKC"].String(canonical)} {
+					c := &equivCheckCase{Lang: int64(implLang[l]), A: text(canonical), B: text(v), Method: "extreme-length"}
+					c10Record(c, true)
+					judge(t, "c10.equiv", c10Check, c)
 				}
 			}
 		}
